@@ -72,6 +72,8 @@ class TypeEnv:
                 return ("opaque",)
             if head == "func":
                 return ("func", ast.unparse(args[0]).strip("'\""))
+            if head == "cls":
+                return ("cls", ast.unparse(args[0]).strip("'\""))
             if head in ("ClassVar", "Final", "Annotated"):
                 return self._p(args[0])
             return self._name(head)
@@ -95,6 +97,8 @@ class TypeEnv:
         if name in BASIC:
             return BASIC[name]
         ci = self.repo.cls(name)
+        if name in self.db.symbolic_classes:
+            return ("symobj", name)
         if ci is not None:
             if ci.is_enum:
                 return ("enum", name)
@@ -110,7 +114,7 @@ class TypeEnv:
         ci = self.repo.cls(cls)
         if ci is not None:
             for c in reversed(self.repo.mro(ci)):
-                if c.is_dataclass:
+                if c.is_dataclass or "NamedTuple" in c.bases:
                     for (fname, ann, _d) in c.fields:
                         try:
                             out[fname] = self.parse(ann) if ann is not None else ("opaque",)
@@ -171,6 +175,9 @@ def mk_sym(st, tenv: TypeEnv, t, name: str, depth=0) -> V:
         return VBytes(c)
     if k == "none":
         return VNone
+    if k == "cls":
+        from .values import VClass
+        return VClass(t[1])
     if k in ("opaque", "func", "exc"):
         c = z3.Const(st.fresh_name(name), Opaque)
         st.input_terms[name] = c
@@ -240,6 +247,6 @@ def mk_sym(st, tenv: TypeEnv, t, name: str, depth=0) -> V:
 
 def elem_type(t):
     """element types of symbolic collections: objects become symbolic-identity objects"""
-    if t[0] == "obj":
+    if t[0] in ("obj", "symobj"):
         return ("obj", t[1])
     return t
